@@ -218,6 +218,8 @@ func indexIngest(repo Repo, index *types.Index, conf config.Config, locked bool)
 					types.AnnotReferrerSubject: refSubj.String(),
 				}
 				index.AddDesc(newDesc)
+				// later tags adding to this subject are merged with the adopted response
+				referrerResponse[refSubj.String()] = newDesc
 				mod = true
 			}
 			// if the response cannot be quickly converted, save for later
